@@ -455,7 +455,8 @@ impl<'a, R: RealNumberInternalTrait> Interpreter<'a, R> {
             }
             ExpressionBody::Assignment(name, value_expr) => {
                 let value = Self::eval_expression(value_expr, env)?;
-                env.set(name, value)?;
+                env.set(name, value)
+                    .map_err(|e| e.data.locate(expression.location))?;
                 Value::Void
             }
             ExpressionBody::Procedure(scheme) => {
